@@ -307,6 +307,11 @@ def run(ctx):
             ctx.violation("C14:" + cl, "recorded %s rejected (%s): %s" % (r["t"], cl, json.dumps(shown)[:700]), {"mode": "record", "record": r})
     ctx.notes["c2s_records"] = len(recs)
     ctx.sample({"c2s": {k: (uncps(v) if k in ("text", "printed") else v) for k, v in recs[-1].items()}})
+    # whole sessions against System.tla: this check judges the rejections at the "readtiming" event
+    from . import system_common as sysc
+    sessions, sverdict = sysc.run_sessions(ctx, 150 if ctx.quick else 3000, ctx.seed + 14)
+    sysc.judge(ctx, "C14", sessions, sverdict, {"readtiming"}, "reading timing lists inside a session")
+    ctx.notes["sessions_with_a_readtiming_event"] = sum(1 for s_ in sessions if any(e["op"] == "readtiming" for e in s_["events"]))
     ctx.exhaustive = True
     ctx.rule = ("S2C: every tick within +-2000 beats (str / from_str) and every (a, op, b) of the bounded arithmetic model x operand types; "
                 "C2S: one evaluation per recorded construction / conversion / operation / event list; distinct = distinct record")
